@@ -3,8 +3,10 @@
 package pubsub
 
 import (
+	"bufio"
 	"context"
 	"encoding/json"
+	"io"
 	"fmt"
 	"math/rand"
 	"os"
@@ -12,11 +14,13 @@ import (
 	"sort"
 	"strconv"
 	"strings"
+	"sync"
 	"testing"
 	"testing/synctest"
 	"time"
 
 	pb "github.com/libp2p/go-libp2p-pubsub/pb"
+	"github.com/libp2p/go-msgio/protoio"
 	"github.com/libp2p/go-libp2p/core/peer"
 	"github.com/libp2p/go-libp2p/core/protocol"
 )
@@ -56,6 +60,7 @@ type vfGNode struct {
 	// or as its first copy left the node (local publication); every copy sent must be byte-identical
 	orig map[string][]string
 	viol map[string]any
+	ev   *vfEvTracer
 }
 
 func (n *vfGNode) mkData(id, size int) []byte {
@@ -65,6 +70,70 @@ func (n *vfGNode) mkData(id, size int) []byte {
 	}
 	n.csum[computeChecksum(strconv.Itoa(id))] = id
 	return []byte(s)
+}
+
+// vfEvTracer is the in-memory EventTracer of C19; it optionally tees every event into a JSON and a
+// protobuf file tracer so that their buffering / writer loops can be checked against it.
+type vfEvTracer struct {
+	mx   sync.Mutex
+	evs  []*pb.TraceEvent
+	all  []*pb.TraceEvent
+	tees []EventTracer
+}
+
+func (t *vfEvTracer) Trace(evt *pb.TraceEvent) {
+	t.mx.Lock()
+	t.evs = append(t.evs, evt)
+	t.all = append(t.all, evt)
+	t.mx.Unlock()
+	for _, x := range t.tees {
+		x.Trace(evt)
+	}
+}
+func (t *vfEvTracer) take() []*pb.TraceEvent {
+	t.mx.Lock()
+	defer t.mx.Unlock()
+	r := t.evs
+	t.evs = nil
+	return r
+}
+
+// trace events of one step as Gallina tev terms (only the kinds C19 talks about)
+func (n *vfGNode) traceLits(evs []*pb.TraceEvent) []string {
+	var out []string
+	pi := func(b []byte) int {
+		for i, p := range n.pids {
+			if string(p) == string(b) {
+				return i
+			}
+		}
+		return 999
+	}
+	for _, e := range evs {
+		switch e.GetType() {
+		case pb.TraceEvent_ON_NEW_OUTBOUND_STREAM:
+			out = append(out, fmt.Sprintf("TAddPeer %d", pi(e.OnNewOutboundStream.PeerID)))
+		case pb.TraceEvent_ON_CLOSED_OUTBOUND_STREAM:
+			out = append(out, fmt.Sprintf("TRemovePeer %d", pi(e.OnClosedOutboundStream.PeerID)))
+		case pb.TraceEvent_JOIN:
+			out = append(out, fmt.Sprintf("TJoin %s", e.Join.GetTopic()[1:]))
+		case pb.TraceEvent_LEAVE:
+			out = append(out, fmt.Sprintf("TLeave %s", e.Leave.GetTopic()[1:]))
+		case pb.TraceEvent_GRAFT:
+			out = append(out, fmt.Sprintf("TGraft %d %s", pi(e.Graft.PeerID), e.Graft.GetTopic()[1:]))
+		case pb.TraceEvent_PRUNE:
+			out = append(out, fmt.Sprintf("TPrune %d %s", pi(e.Prune.PeerID), e.Prune.GetTopic()[1:]))
+		case pb.TraceEvent_DELIVER_MESSAGE:
+			out = append(out, fmt.Sprintf("TDeliver %s", string(e.DeliverMessage.MessageID)))
+		case pb.TraceEvent_PUBLISH_MESSAGE:
+			out = append(out, fmt.Sprintf("TPublish %s", string(e.PublishMessage.MessageID)))
+		case pb.TraceEvent_SEND_RPC:
+			out = append(out, fmt.Sprintf("TSend %d", pi(e.SendRPC.SendTo)))
+		case pb.TraceEvent_DROP_RPC:
+			out = append(out, fmt.Sprintf("TDrop %d", pi(e.DropRPC.SendTo)))
+		}
+	}
+	return out
 }
 
 // decode drained RPCs into Gallina gout terms
@@ -201,9 +270,25 @@ func vfGossipHistory(t *testing.T, rng *rand.Rand, nops int, style int) (lit str
 			gs.floodPublish = G.Flood
 			return nil
 		}
-		rn := vfNewRouterNode(t, ctx, P, np, gp, WithSeenMessagesTTL(1000000*time.Hour), WithMessageIdFn(vfMsgID))
+		ev := &vfEvTracer{}
+		teeFiles := style == 9
+		var jsonFile, pbFile string
+		if teeFiles {
+			jsonFile = filepath.Join(t.TempDir(), "trace.json")
+			pbFile = filepath.Join(t.TempDir(), "trace.pb")
+			jt, err := NewJSONTracer(jsonFile)
+			if err != nil {
+				t.Fatal(err)
+			}
+			pt, err := NewPBTracer(pbFile)
+			if err != nil {
+				t.Fatal(err)
+			}
+			ev.tees = []EventTracer{jt, pt}
+		}
+		rn := vfNewRouterNode(t, ctx, P, np, gp, WithSeenMessagesTTL(1000000*time.Hour), WithMessageIdFn(vfMsgID), WithEventTracer(ev))
 		rn.gs.mcache.SetMsgIdFn(func(m *Message) string { return vfMsgID(m.Message) })
-		n := &vfGNode{vfRNode: rn, G: G, topics: map[int]*Topic{}, subs: map[int]*Subscription{}, csum: map[checksum]int{}, nextMid: 100, orig: map[string][]string{}}
+		n := &vfGNode{vfRNode: rn, G: G, topics: map[int]*Topic{}, subs: map[int]*Subscription{}, csum: map[checksum]int{}, nextMid: 100, orig: map[string][]string{}, ev: ev}
 		ntopics := 2
 		connected := map[int]protocol.ID{}
 		joined := map[int]bool{}
@@ -226,8 +311,16 @@ func vfGossipHistory(t *testing.T, rng *rand.Rand, nops int, style int) (lit str
 				}
 			}
 			penBefore = penAfter
-			steps = append(steps, fmt.Sprintf("{| gs_scores := %s; gs_op := %s;\n       gs_out := [%s];\n       gs_snap := %s |}", sc, op, strings.Join(outs, "; "), n.gsnapshot()))
-			recSteps = append(recSteps, map[string]any{"op": op, "scores": sc, "out": outs})
+			var nrpc []string
+			for i := range n.pids {
+				if len(rpcs[i]) > 0 {
+					nrpc = append(nrpc, fmt.Sprintf("(%d, %d)", i, len(rpcs[i])))
+				}
+			}
+			tl := n.traceLits(n.ev.take())
+			steps = append(steps, fmt.Sprintf("{| gs_scores := %s; gs_op := %s;\n       gs_out := [%s];\n       gs_snap := %s;\n       gs_trace := [%s]; gs_nrpc := [%s] |}",
+				sc, op, strings.Join(outs, "; "), n.gsnapshot(), strings.Join(tl, "; "), strings.Join(nrpc, "; ")))
+			recSteps = append(recSteps, map[string]any{"op": op, "scores": sc, "out": outs, "trace": tl})
 			for _, o := range outs {
 				if strings.HasPrefix(o, "OIHave") {
 					nGossip++
@@ -268,6 +361,24 @@ func vfGossipHistory(t *testing.T, rng *rand.Rand, nops int, style int) (lit str
 				}
 			}
 			sc := n.scoreLit()
+			if style == 2 && i%15 == 9 {
+				// a burst of GRAFTs from every connected peer for a joined topic: fills the mesh up to Dhi, the rest is refused
+				for tp := 0; tp < ntopics; tp++ {
+					if !joined[tp] {
+						continue
+					}
+					s := vfTopic(tp)
+					for p := 0; p < np; p++ {
+						if _, ok := connected[p]; !ok {
+							continue
+						}
+						n.recv(p, &pb.RPC{Control: &pb.ControlMessage{Graft: []*pb.ControlGraft{{TopicID: &s}}}})
+						n.tr.take()
+						emit(fmt.Sprintf("GCore (ORecvGraft %d [%d])", p, tp), sc)
+					}
+					break
+				}
+			}
 			r := rng.Intn(100)
 			switch {
 			case r < 14 || len(connected) < 4:
@@ -661,19 +772,101 @@ func vfGossipHistory(t *testing.T, rng *rand.Rand, nops int, style int) (lit str
 		}
 		cancel()
 		synctest.Wait()
+		if teeFiles {
+			// the file tracers must have written exactly the events the in-memory tracer saw, in order
+			for _, x := range ev.tees {
+				switch tr := x.(type) {
+				case *JSONTracer:
+					tr.Close()
+				case *PBTracer:
+					tr.Close()
+				}
+			}
+			synctest.Wait()
+			ev.mx.Lock()
+			want := ev.all
+			ev.mx.Unlock()
+			var gotJ, gotP []*pb.TraceEvent
+			if f, err := os.Open(jsonFile); err == nil {
+				dec := json.NewDecoder(bufio.NewReader(f))
+				for {
+					var e pb.TraceEvent
+					if err := dec.Decode(&e); err != nil {
+						break
+					}
+					gotJ = append(gotJ, &e)
+				}
+				f.Close()
+			}
+			if f, err := os.Open(pbFile); err == nil {
+				r := protoio.NewDelimitedReader(f, 1<<20)
+				for {
+					var e pb.TraceEvent
+					if err := r.ReadMsg(&e); err != nil {
+						if err != io.EOF {
+							gotP = append(gotP, nil)
+						}
+						break
+					}
+					gotP = append(gotP, &e)
+				}
+				f.Close()
+			}
+			same := func(got []*pb.TraceEvent) string {
+				if len(got) != len(want) {
+					return fmt.Sprintf("%d events in the file, %d traced", len(got), len(want))
+				}
+				for i := range want {
+					a, _ := want[i].Marshal()
+					var b []byte
+					if got[i] != nil {
+						b, _ = got[i].Marshal()
+					}
+					if string(a) != string(b) {
+						return fmt.Sprintf("event %d differs (%v)", i, want[i].GetType())
+					}
+				}
+				return ""
+			}
+			if d := same(gotJ); d != "" && n.viol == nil {
+				rec["trace_file_violation"] = map[string]any{"property": "C19", "code": 199, "key": "json-trace-differs", "what": "JSON trace file differs from the events traced: " + d}
+			}
+			if d := same(gotP); d != "" && rec["trace_file_violation"] == nil {
+				rec["trace_file_violation"] = map[string]any{"property": "C19", "code": 199, "key": "pb-trace-differs", "what": "protobuf trace file differs from the events traced: " + d}
+			}
+			rec["trace_files_compared"] = len(want)
+		}
 	})
 	return
 }
 
 func TestVF_Gossip(t *testing.T) {
-	cs := vfNewCases(t, "gossip", "From PS Require Import Model.Router Model.Gossip Run.GossipRun.", "gcase", "check_gcase")
+	cs := vfNewCases(t, "gossip", "From PS Require Import Model.Router Model.Gossip Model.Trace Run.GossipRun.", "gcase", "check_gcase")
 	cs.shard = 25
 	rng := vfRng(17)
 	ncases := vfN(150, 2000)
 	wroteViol := false
+	wroteTraceViol := false
+	nFiles, nFileEvents := 0, 0
 	for c := 0; c < ncases; c++ {
-		lit, rec, nt := vfGossipHistory(t, rng, 40+rng.Intn(60), 0)
+		style := 0
+		if c%10 == 4 {
+			style = 9 // tee the trace into a JSON and a protobuf file tracer and compare at the end
+		}
+		if c%5 == 1 {
+			style = 2 // GRAFT bursts (mesh filled up to Dhi, further GRAFTs refused)
+		}
+		lit, rec, nt := vfGossipHistory(t, rng, 40+rng.Intn(60), style)
 		cs.add(lit, rec, nt)
+		if n, ok := rec["trace_files_compared"]; ok {
+			nFiles++
+			nFileEvents += n.(int)
+		}
+		if v, ok := rec["trace_file_violation"]; ok && !wroteTraceViol {
+			wroteTraceViol = true
+			js, _ := json.MarshalIndent(v, "", " ")
+			os.WriteFile(filepath.Join(vfOutDir(t), "violation_gossip_tracefile.json"), js, 0o644)
+		}
 		if v, ok := rec["copy_violation"]; ok && !wroteViol {
 			wroteViol = true
 			vm := map[string]any{}
@@ -687,6 +880,8 @@ func TestVF_Gossip(t *testing.T) {
 		}
 	}
 	cs.extra["copies_compared_bytewise"] = true
+	cs.extra["histories_with_json_and_pb_trace_files_compared"] = nFiles
+	cs.extra["trace_file_events_compared"] = nFileEvents
 	cs.flush("random gossip-level router histories on a real gossipsub node with a parked heartbeat: the router alphabet (peers of every protocol version, subscriptions, Subscribe/Cancel through the API, direct peers, remote GRAFT/PRUNE, virtual time) plus local publishes to joined and non-joined topics (fanout), messages from peers with and without an author, duplicates, IHAVE (seen and unseen ids, over-long lists), IWANT (repeated, unknown ids), IDONTWANT, heartbeats; integer scores crossing the graylist / publish / gossip thresholds and zero; with and without flood publishing; after EVERY operation every RPC queued for every fake peer, the penalty deltas and a snapshot of mesh / fanout / backoff / unwanted / message-cache contents are compared with the model. " +
 		"non-trivial = at least one IHAVE emitted and one message copy sent; distinct = hash of the history")
 }
